@@ -151,6 +151,7 @@ type Engine struct {
 	globals map[*ssa.Global]*Value
 	doms    map[string]*bitset
 	facts   map[string]bool
+	parseResult *Value
 	domHits int
 	bufs    map[*Value][]bufSeg
 	inInit  bool
@@ -406,6 +407,7 @@ func (e *Engine) resetPath(prefix []bool) {
 	e.globals = map[*ssa.Global]*Value{}
 	e.doms = map[string]*bitset{}
 	e.facts = map[string]bool{}
+	e.parseResult = nil
 	e.bufs = map[*Value][]bufSeg{}
 	e.expectPanic = ""
 	e.atomSeq = 0
